@@ -144,6 +144,9 @@ func (c *TO0Client) ownerSign(ctx context.Context, transport Transport, guid pro
 		WaitSeconds:  ttl,
 		NonceTO0Sign: nonce,
 	}
+	if ov.Entries[0].Payload == nil || !ov.Entries[0].Payload.Val.PreviousHash.Algorithm.Valid() {
+		return 0, fmt.Errorf("ownership voucher entry has no payload or an unsupported hash algorithm")
+	}
 	alg := ov.Entries[0].Payload.Val.PreviousHash.Algorithm
 	to0dHash := alg.HashFunc().New()
 	if err := cbor.NewEncoder(to0dHash).Encode(to0d); err != nil {
@@ -224,6 +227,10 @@ func (s *TO0Server) acceptOwner(ctx context.Context, msg io.Reader) (*to0AcceptO
 	}
 
 	// Verify to0d hash matches to0d
+	if sig.To1d.Payload == nil || !sig.To1d.Payload.Val.To0dHash.Algorithm.Valid() {
+		captureErr(ctx, protocol.InvalidMessageErrCode, "")
+		return nil, fmt.Errorf("to1d has no payload or an unsupported to0d hash algorithm")
+	}
 	to0dHash := sig.To1d.Payload.Val.To0dHash.Algorithm.HashFunc().New()
 	if err := cbor.NewEncoder(to0dHash).Encode(sig.To0d.Val); err != nil {
 		return nil, fmt.Errorf("error hashing to0d structure: %w", err)
